@@ -19,6 +19,8 @@ hook.sim_init()
 NH = 8
 h = [None] * NH
 bx = [None] * NH
+hi = [None] * NH
+hd = [None] * NH
 
 
 QUIET = [False]
@@ -166,6 +168,50 @@ def do_op(k, name, a, b, text):
     elif name == "box_delete":
         bx[a] = None
         res(k)
+    elif name == "hi_new":
+        hi[a] = simlib.Holder_int(b)
+        res(k)
+    elif name == "hd_new":
+        hd[a] = simlib.Holder_double(b)
+        res(k)
+    elif name == "hi_get":
+        res(k, hi[a].get())
+    elif name == "hd_get":
+        res(k, int(hd[a].get()))
+    elif name == "hi_put":
+        hi[a].put(b)
+        res(k)
+    elif name == "hd_put":
+        hd[a].put(float(b))
+        res(k)
+    elif name == "hi_delete":
+        hi[a] = None
+        res(k)
+    elif name == "hd_delete":
+        hd[a] = None
+        res(k)
+    elif name == "arr_weights":
+        arr(k, simlib.arrWeights(prepared(("aw", a), lambda: [i + 1 for i in range(a)]),
+                                 prepared(("aw2", b), lambda: [2 + j for j in range(b)])))
+    elif name == "bad_arr_weights":
+        def mkw():
+            lst = [2 + j for j in range(1 + b % 3)]
+            lst[b % len(lst)] = bad_value(b)
+            return lst
+        try:
+            simlib.arrWeights(prepared(("aw", a), lambda: [i + 1 for i in range(a)]), prepared(("baw", b), mkw))
+            res(k, "NOERROR")
+        except BaseException as e:
+            res(k, "EXC", type(e).__name__)
+    elif name == "char_arr_none":
+        def mkn():
+            out_ = []
+            for i in range(1, a + 1):
+                s = "w" * ((i - 1) % (b + 1))
+                out_.append(None if (i + b) % 3 == 0 else s + "")
+            return out_
+        lst = prepared(("can", a, b), mkn)
+        res(k, simlib.charArrLen(lst, len(lst)))
     elif name == "str_ref":
         res(k, simlib.strRef())
     elif name == "str_val":
